@@ -21,6 +21,7 @@ import (
 	"errors"
 	"fmt"
 	"io"
+	"math"
 	"regexp"
 	"strconv"
 )
@@ -818,7 +819,8 @@ func (s *scanner) ReadStreamData(dict Dict) (stm *Stream, err error) {
 
 	var l int64
 	lengthOK := false
-	if declared >= 0 {
+	if declared >= 0 && declared <= math.MaxInt64-start {
+		// (a length so large that start+declared overflows cannot be right)
 		lengthOK, err = endstreamAt(origReader, start+declared)
 		if err != nil {
 			return nil, err
